@@ -180,6 +180,9 @@ EShutCancel ==
      THEN S.sh[Ev.n] = "cing" /\ S' = [S EXCEPT !.tsc[Ev.n] = S.now]
      ELSE S.sh[Ev.n] = "cancelled" /\ Same
 
+(* a handler that is unwinding is cancelled once more: harmless              *)
+EShutRecancel == Is("shut-recancel") /\ KeepM /\ S.sh[Ev.n] = "cing" /\ Same
+
 EShutCancelDone ==
   /\ Is("shut-cancel-done") /\ KeepM /\ Marked("shc", Ev.n)
   /\ HandlerCancelDoneG(cfg, S, Ev.n) /\ S' = HandlerCancelDoneF(cfg, S, Ev.n)
@@ -271,6 +274,7 @@ LLeftover == UNCHANGED <<cfg, tid>> /\ l' = l + 1 /\ ELeftover
 LLateHang == UNCHANGED <<cfg, tid>> /\ l' = l + 1 /\ ELateHang
 LStall == UNCHANGED <<cfg, tid>> /\ l' = l + 1 /\ EStall
 LShutCancelDone == UNCHANGED <<cfg, tid>> /\ l' = l + 1 /\ EShutCancelDone
+LShutRecancel == UNCHANGED <<cfg, tid>> /\ l' = l + 1 /\ EShutRecancel
 LUserCancel == UNCHANGED <<cfg, tid>> /\ l' = l + 1 /\ EUserCancel
 QProcess == UNCHANGED <<cfg, tid>> /\ l' = l /\ KeepM /\ Has /\ \E s \in Scheds(cfg) : Process(s)
 QTimeout == UNCHANGED <<cfg, tid>> /\ l' = l /\ KeepM /\ Has /\ \E s \in Scheds(cfg) : Timeout(s)
@@ -280,7 +284,7 @@ QShutCancelProp == UNCHANGED <<cfg, tid>> /\ l' = l /\ KeepM /\ Has /\ \E s \in 
 
 Logged == LRunBegin \/ LStart \/ LEnd \/ LRaise \/ LSelfCancel \/ LCancel \/ LRecancel \/ LCancelDone \/ LCancelRaise \/ LSshut \/ LSshutRet
           \/ LSshutCancel \/ LRunEnd \/ LRunExc \/ LDiag \/ LShut \/ LShutDone \/ LShutCancel \/ LTick \/ LSnap
-          \/ LTop \/ LTopHang \/ LRes \/ LLeftover \/ LLateHang \/ LStall \/ LShutCancelDone \/ LUserCancel
+          \/ LTop \/ LTopHang \/ LRes \/ LLeftover \/ LLateHang \/ LStall \/ LShutCancelDone \/ LShutRecancel \/ LUserCancel
 Silent == QProcess \/ QTimeout \/ QCancelProp \/ QShutExpire \/ QShutCancelProp
 
 TNext == Logged \/ Silent
@@ -375,6 +379,8 @@ Why(C, X, e) ==
              ELSE "run-end-other")
        [] e.k = "run-exc" ->
             (IF e.v = "other" THEN "verdict-foreign-exception"
+             ELSE IF ~Over(X, n) /\ e.v = "cancelled" /\ ~X.creq[n] /\ X.cause[n] # "cancelled"
+                  THEN "verdict-cancelled-without-cancellation"     \* CancelledError out of a run nobody cancelled
              ELSE IF ~Over(X, n) /\ e.v = "cancelled" THEN "cancelled-run-ends-early-" \o byCause
              ELSE IF ~Over(X, n) THEN "run-exc-early"
              ELSE IF X.st[n] = "ok" THEN "verdict-raise-instead-of-return" \o Claim(e, n) \o "-spec-" \o X.cause[n]
@@ -417,6 +423,7 @@ Why(C, X, e) ==
              ELSE IF ~AllShutSeen THEN "shut-missing"
              ELSE "top-other")
        [] e.k = "leftover" -> "leftover-tasks"
+       [] e.k = "shut-recancel" -> "shut-recancel-unexpected"
        [] e.k = "late-hang" -> "no-progress-explicit-shutdown"
        [] e.k = "late-exc" -> "shutdown-raises"
        [] OTHER -> "unknown-event"
